@@ -18,15 +18,16 @@ Definition xkey_keydata (pubser : bool) (k : keymeta) (want_private : bool) : by
 Definition km_witness_eff (k : keymeta) : str :=
   if String.eqb (km_witness k) "" then default_witness else km_witness k.
 
-Lemma xkey_export_row pubser k want w :
-  lib_xkey pubser k want = Ok w ->
-  exists n r, In n all_networks /\ nw_name n = km_network k /\ In r (nw_prefixes_wif n) /\
+Lemma xkey_export_row pubser oc k want w :
+  lib_xkey pubser oc k want = Ok w ->
+  exists n r, km_constructible oc k = true /\ In n all_networks /\ nw_name n = km_network k /\ In r (nw_prefixes_wif n) /\
     wr_private r = (km_private k && want) /\ wr_witness_type r = km_witness_eff k /\ wr_multisig r = km_multisig k /\
     0 <= km_depth k < 256 /\ 0 <= km_child k < 2 ^ 32 /\
     w = b58check_enc sha256d
           (xkey_raw (wr_prefix r) (km_depth k) (km_fp k) (km_child k) (km_chain k) (xkey_keydata pubser k want)).
 Proof.
-  unfold lib_xkey. destruct (find_network (km_network k)) as [n|] eqn:F; [|discriminate].
+  unfold lib_xkey. destruct (km_constructible oc k) eqn:KC; [|discriminate]. cbn [negb].
+  destruct (find_network (km_network k)) as [n|] eqn:F; [|discriminate].
   unfold find_network in F. apply find_some in F. destruct F as [Hn Hname]. apply String.eqb_eq in Hname.
   fold (km_witness_eff k).
   destruct (lib_network_wif_prefix n (km_private k && want) (km_witness_eff k) (km_multisig k)) as [p|e] eqn:P;
@@ -63,43 +64,77 @@ Proof.
 Qed.
 
 (* ------------------------------------------------------------------ public raw forms *)
-Lemma raw_public_bytes fold wc k0 kr h c :
-  hint_ok h -> (length kr = 32%nat /\ (k0 = x02 \/ k0 = x03)) \/ (length kr = 64%nat /\ k0 = x04) ->
-  lib_key_import fold wc (KBytes (k0 :: kr)) h c None =
+Definition pub_shape (k0 : byte) (kr : bytes) : Prop :=
+  (length kr = 32%nat /\ (k0 = x02 \/ k0 = x03)) \/ (length kr = 64%nat /\ k0 = x04).
+
+Lemma pub_checked_ok oc k0 kr : pub_shape k0 kr -> oc (k0 :: kr) = true ->
+  pub_checked oc (k0 :: kr) = Ok (k0 :: kr, Nat.eqb (length kr) 32).
+Proof.
+  intros Hk Hoc. unfold pub_checked, pub_strict_ok. cbn [length]. rewrite Hoc.
+  destruct Hk as [[Hl [-> | ->]] | [Hl ->]]; rewrite Hl; reflexivity.
+Qed.
+
+Lemma raw_public_bytes fold wc oc k0 kr h c :
+  hint_ok h -> pub_shape k0 kr -> oc (k0 :: kr) = true ->
+  lib_key_import fold wc oc (KBytes (k0 :: kr)) h c None =
   Ok (raw_key_obj false (k0 :: kr) (Nat.eqb (length kr) 32) (hint_network h)
         (if Nat.eqb (length kr) 32 then FBinCompressed else FBin)).
 Proof.
-  intros Hh Hk.
+  intros Hh Hk Hoc.
   assert (G : gkf_bytes (k0 :: kr) = kf_plain (if Nat.eqb (length kr) 32 then FBinCompressed else FBin) false).
   { unfold gkf_bytes. cbn [length].
     destruct Hk as [[Hl [-> | ->]] | [Hl ->]]; rewrite Hl; reflexivity. }
   unfold lib_key_import. cbn [lib_get_key_format]. rewrite G.
   cbn [kf_plain kf_private kf_format kf_networks]. rewrite (key_import_net h Hh).
-  assert (P : key_public_part (KBytes (k0 :: kr)) (if Nat.eqb (length kr) 32 then FBinCompressed else FBin) =
+  assert (P : key_public_part oc (KBytes (k0 :: kr)) (if Nat.eqb (length kr) 32 then FBinCompressed else FBin) =
               Ok (k0 :: kr, Nat.eqb (length kr) 32)).
-  { destruct Hk as [[Hl _] | [Hl _]]; rewrite Hl; cbn [Nat.eqb key_public_part length]; rewrite Hl; reflexivity. }
+  { rewrite <- (pub_checked_ok oc k0 kr Hk Hoc). destruct (Nat.eqb (length kr) 32); reflexivity. }
   rewrite P. reflexivity.
 Qed.
 
-Lemma raw_public_hex fold wc k0 kr h c :
-  hint_ok h -> (length kr = 32%nat /\ (k0 = x02 \/ k0 = x03)) \/ (length kr = 64%nat /\ k0 = x04) ->
-  lib_key_import fold wc (KStr (hex_encode (k0 :: kr))) h c None =
+Lemma raw_public_hex fold wc oc k0 kr h c :
+  hint_ok h -> pub_shape k0 kr -> oc (k0 :: kr) = true ->
+  lib_key_import fold wc oc (KStr (hex_encode (k0 :: kr))) h c None =
   Ok (raw_key_obj false (k0 :: kr) (Nat.eqb (length kr) 32) (hint_network h)
         (if Nat.eqb (length kr) 32 then FPublic else FPublicUncompressed)).
 Proof.
-  intros Hh Hk.
+  intros Hh Hk Hoc.
   assert (G : gkf_str fold wc (hex_encode (k0 :: kr)) None =
               kf_plain (if Nat.eqb (length kr) 32 then FPublic else FPublicUncompressed) false).
   { unfold gkf_str, len_is. rewrite hex_encode_length. cbn [length].
     destruct Hk as [[Hl [-> | ->]] | [Hl ->]]; rewrite Hl; reflexivity. }
   unfold lib_key_import. cbn [lib_get_key_format]. rewrite G.
   cbn [kf_plain kf_private kf_format kf_networks]. rewrite (key_import_net h Hh).
-  assert (P : key_public_part (KStr (hex_encode (k0 :: kr))) (if Nat.eqb (length kr) 32 then FPublic else FPublicUncompressed) =
+  assert (P : key_public_part oc (KStr (hex_encode (k0 :: kr))) (if Nat.eqb (length kr) 32 then FPublic else FPublicUncompressed) =
               Ok (k0 :: kr, Nat.eqb (length kr) 32)).
-  { destruct Hk as [[Hl _] | [Hl _]]; rewrite Hl; cbn [Nat.eqb]; unfold key_public_part;
-      rewrite hex_decode_encode; cbn [length]; rewrite Hl; reflexivity. }
+  { rewrite <- (pub_checked_ok oc k0 kr Hk Hoc).
+    destruct (Nat.eqb (length kr) 32); unfold key_public_part; rewrite hex_decode_encode; reflexivity. }
   rewrite P. reflexivity.
 Qed.
+
+(* what the C04 repairs refuse: the group order itself as a secret, in every raw form and as a WIF;
+   a public key the oracle rejects *)
+Definition order_bytes : bytes := be_bytes 32 secp256k1_n.
+
+Lemma secret_out_of_range_refused :
+  lib_key_import false true (fun _ => true) (KBytes order_bytes) None true None = Err EKey /\
+  lib_key_import false true (fun _ => true) (KStr (hex_encode order_bytes)) None true None = Err EKey /\
+  lib_key_import false true (fun _ => true) (KInt secp256k1_n) None true None = Err EKey /\
+  lib_key_import false true (fun _ => true) (KInt 0) None true None = Err EKey /\
+  lib_key_import false true (fun _ => true)
+    (KStr (b58check_enc sha256d ([x80] ++ order_bytes ++ [x01]))) None true None = Err EKey /\
+  lib_hdkey_import false true (fun _ => true)
+    (KStr (b58check_enc sha256d (xkey_raw [x04; x88; xad; xe4] 0 (repeat x00 4) 0 (repeat x11 32) (x00 :: order_bytes))))
+    None None false true = Err EKey.
+Proof. vm_compute. repeat split; reflexivity. Qed.
+
+Lemma off_curve_public_refused :
+  lib_key_import false true (fun _ => false) (KBytes (x02 :: repeat x33 32)) None true None = Err EKey /\
+  lib_key_import false true (fun _ => true) (KBytes (x02 :: repeat x33 32)) None true None =
+    Ok (raw_key_obj false (x02 :: repeat x33 32) true default_network FBinCompressed) /\
+  lib_key_import false true (fun _ => true) (KBytes (x05 :: repeat x33 32)) None true None = Err EUnmodelled /\
+  lib_key_import false true (fun _ => true) (KBytes (x04 :: repeat x33 32)) None true None = Err EKey.
+Proof. vm_compute. repeat split; reflexivity. Qed.
 
 (* ------------------------------------------------------------------ candidates and exactness *)
 Lemma unique_candidate {A} (x y : A) : In x [y] -> y = x.
@@ -135,8 +170,10 @@ Qed.
 Definition xkey_text (r : wif_row) (depth : Z) (fp : bytes) (child : Z) (chain keydata : bytes) : bytes :=
   b58check_enc sha256d (xkey_raw (wr_prefix r) depth fp child chain keydata).
 Definition row_key (r : wif_row) (k0 : byte) (kr : bytes) : bytes := if wr_private r then kr else k0 :: kr.
-Definition row_key_ok (r : wif_row) (k0 : byte) (kr : bytes) : Prop :=
-  length kr = 32%nat /\ (if wr_private r then k0 = x00 else (k0 = x02 \/ k0 = x03)).
+Definition row_key_ok (oc : bytes -> bool) (r : wif_row) (k0 : byte) (kr : bytes) : Prop :=
+  length kr = 32%nat /\
+  (if wr_private r then k0 = x00 /\ 0 < of_be kr < secp256k1_n
+   else ((k0 = x02 \/ k0 = x03) /\ oc (k0 :: kr) = true)).
 Definition import_witness (p : bytes) (wthint : option str) : str :=
   match prefix_witness p, wthint with
   | [w], None => w
@@ -146,9 +183,9 @@ Definition import_witness (p : bytes) (wthint : option str) : str :=
 Definition import_multisig (p : bytes) (mshint : bool) : bool :=
   match prefix_multisig p with [m] => m | _ => mshint end.
 
-Lemma xkey_format_closed fold wc n r depth child fp chain k0 kr ip :
+Lemma xkey_format_closed fold wc oc n r depth child fp chain k0 kr ip :
   In n all_networks -> In r (nw_prefixes_wif n) ->
-  length fp = 4%nat -> length chain = 32%nat -> row_key_ok r k0 kr ->
+  length fp = 4%nat -> length chain = 32%nat -> row_key_ok oc r k0 kr ->
   lib_get_key_format fold wc (KStr (xkey_text r depth fp child chain (k0 :: kr))) ip =
   KfOk {| kf_format := if wr_private r then FHdPrivate else FHdPublic;
           kf_networks := Some (prefix_networks (wr_prefix r)); kf_private := wr_private r;
@@ -159,10 +196,10 @@ Proof.
   unfold xkey_text, b58check_enc. eapply xkey_text_format; eassumption.
 Qed.
 
-Lemma xkey_import_closed fold wc n r depth child fp chain k0 kr hint wthint mshint c :
+Lemma xkey_import_closed fold wc oc n r depth child fp chain k0 kr hint wthint mshint c :
   In n all_networks -> In r (nw_prefixes_wif n) ->
-  0 <= depth < 256 -> 0 <= child < 2 ^ 32 -> length fp = 4%nat -> length chain = 32%nat -> row_key_ok r k0 kr ->
-  lib_hdkey_import fold wc (KStr (xkey_text r depth fp child chain (k0 :: kr))) hint wthint mshint c =
+  0 <= depth < 256 -> 0 <= child < 2 ^ 32 -> length fp = 4%nat -> length chain = 32%nat -> row_key_ok oc r k0 kr ->
+  lib_hdkey_import fold wc oc (KStr (xkey_text r depth fp child chain (k0 :: kr))) hint wthint mshint c =
   match lib_check_network hint (Some (prefix_networks (wr_prefix r))) with
   | Err e => Err e
   | Ok nw => Ok (xkey_obj (wr_private r) (row_key r k0 kr) c nw chain depth fp child
@@ -173,10 +210,10 @@ Proof.
   unfold xkey_text, b58check_enc, import_witness, import_multisig, row_key. eapply xkey_import_lemma; eassumption.
 Qed.
 
-Lemma xkey_from_wif_closed fold wc n r depth child fp chain k0 kr hint mshint c :
+Lemma xkey_from_wif_closed fold wc oc n r depth child fp chain k0 kr hint mshint c :
   In n all_networks -> In r (nw_prefixes_wif n) ->
-  0 <= depth < 256 -> 0 <= child < 2 ^ 32 -> length fp = 4%nat -> length chain = 32%nat -> row_key_ok r k0 kr ->
-  lib_hdkey_from_wif fold wc (xkey_text r depth fp child chain (k0 :: kr)) hint mshint c =
+  0 <= depth < 256 -> 0 <= child < 2 ^ 32 -> length fp = 4%nat -> length chain = 32%nat -> row_key_ok oc r k0 kr ->
+  lib_hdkey_from_wif fold wc oc (xkey_text r depth fp child chain (k0 :: kr)) hint mshint c =
   match lib_wif_prefix_search (wr_prefix r) None mshint hint with
   | [] => Err EKey
   | m :: _ => Ok (xkey_obj (wr_private r) (row_key r k0 kr) c (match hint with Some h => h | None => hm_network m end)
